@@ -1,74 +1,89 @@
 (* Model_Session - finite control model of one ExaBGP peer session (reactor/peer/peer.py run/_run/
-   _establish/_connect/_main/_reset/_close/_stop/stop/remove/teardown/reestablish/handle_connection,
-   reactor/protocol.py connect/accept/read_open/read_keepalive/read_message and the new_.. senders), as the code is now.
+   _establish/_connect/_main/_read_message_or_nop/_cancel_read/_reset/_close/_stop/stop/remove/teardown/
+   reestablish/reconfigure/handle_connection/_abandon_run, reactor/protocol.py connect/accept/read_open/
+   read_keepalive/read_message and the new_.. senders), as the code is now.
 
-   One step = everything the implementation does between two suspension points of the peer task, caused
-   by ONE stimulus (the harness logs the stimulus at the moment it takes effect: bytes of a message
-   consumed by the reader, connect resolved, a timer firing, handle_connection/teardown/... called,
-   _run entered, the send phase of the main loop finding something to send).
+   One step = everything the implementation does because of ONE stimulus; the harness logs the stimulus
+   at the moment it takes effect (octets of a message taken by the reader, connect resolved, a timer
+   firing, handle_connection/teardown/reload called, _run entered, and the places of the main loop where
+   it looks at what was requested: send phase with something to send (Tick), adoption of a reloaded
+   neighbor at the top of an iteration (Handover), the pause that ends an iteration while a teardown is
+   requested (LoopPause), the loop left for a teardown (LoopExit)).
 
    Control points (where the peer task is suspended):
      W   between two attempts (run(): back-off / 100 ms pause)          CN  in _connect, awaiting the TCP connect
-     RO  in _read_open (OPEN sent)   RK  in _read_ka (hold timer running)                     M0  _main entered, first loop iteration pending
-     MN  main loop, nothing queued   MR  main loop, a re-send queued by a received ROUTE-REFRESH
-     ST  run() returned
+     RO  in _read_open (OPEN sent)   RK  in _read_ka (hold timer running) M0  _main entered, first loop iteration pending
+     MN  main loop, nothing queued   MR  main loop, routes queued (ROUTE-REFRESH received / reloaded neighbor adopted)
+     MP  main loop, in the 1 ms pause that ends an iteration, teardown requested: the loop will leave without
+         looking at the read again                                       ST  run() returned
    own: what peer.proto is, relative to the transport the suspended coroutine uses:
      ONone  peer.proto is None;  OSame  the coroutine's transport;  ONew  an accepted transport that no
      attempt uses yet (handle_connection accepted it; it also cancels the attempt in progress, so ONew only
      occurs at W and ST; in RO/RK own = ONone happens after remove/shutdown: the coroutine then waits on a
      transport that was closed locally, whose read never completes, until its timer fires).
+   pend: the read in progress (in _main the task kept by _read_message_or_nop across its 100 ms timeouts):
+     PNone nothing taken from the transport; PPartial part of a message taken; PDone a complete result the loop
+     has not looked at (only in MP); PLost the reader found the connection gone and closed it, unseen (MP).
    tdc: the pending teardown code (Peer._teardown, 0 = none); rs: Peer._restart; rq: a ROUTE-REFRESH is
-   queued for sending; pb: Processes.up raises ProcessError.
+   queued for sending; pb: Processes.up raises ProcessError; ho: a reloaded neighbor waits to be adopted
+   (Peer._neighbor set by reconfigure() on an established session).
 
    Not modelled (stated in the evidence): graceful-restart teardown (closes without NOTIFICATION by
    design), tcp.attempts > 0, bgp.passive, neighbors without local-as (OPEN mirrored after reading),
-   ephemeral peers, write errors, the 100 ms between an API teardown and the loop noticing it. *)
+   ephemeral peers, write errors. *)
 From Coq Require Import ZArith List Bool.
 From ExaV Require Import gen.Gen_Fsm spec.Spec_Fsm.
 Import ListNotations.
 Open Scope Z_scope.
 
-Inductive cpoint := W | CN | RO | RK | M0 | MN | MR | ST.
+Inductive cpoint := W | CN | RO | RK | M0 | MN | MR | MP | ST.
 Inductive owner := ONone | OSame | ONew.
+Inductive pread := PNone | PPartial | PDone | PLost.
 
 Record sstate := {
-  cp : cpoint; fsm : fstate; own : owner; tdc : Z; rs : bool; rq : bool; pb : bool
+  cp : cpoint; fsm : fstate; own : owner; pend : pread; tdc : Z; rs : bool; rq : bool; pb : bool; ho : bool
 }.
 
 Definition init : sstate :=
-  {| cp := W; fsm := Idle; own := ONone; tdc := 0; rs := true; rq := false; pb := false |}.
+  {| cp := W; fsm := Idle; own := ONone; pend := PNone; tdc := 0; rs := true; rq := false; pb := false; ho := false |}.
 
 Definition with_cp (s : sstate) (c : cpoint) : sstate :=
-  {| cp := c; fsm := fsm s; own := own s; tdc := tdc s; rs := rs s; rq := rq s; pb := pb s |}.
+  {| cp := c; fsm := fsm s; own := own s; pend := pend s; tdc := tdc s; rs := rs s; rq := rq s; pb := pb s; ho := ho s |}.
 Definition with_fsm (s : sstate) (f : fstate) : sstate :=
-  {| cp := cp s; fsm := f; own := own s; tdc := tdc s; rs := rs s; rq := rq s; pb := pb s |}.
+  {| cp := cp s; fsm := f; own := own s; pend := pend s; tdc := tdc s; rs := rs s; rq := rq s; pb := pb s; ho := ho s |}.
 Definition with_own (s : sstate) (o : owner) : sstate :=
-  {| cp := cp s; fsm := fsm s; own := o; tdc := tdc s; rs := rs s; rq := rq s; pb := pb s |}.
+  {| cp := cp s; fsm := fsm s; own := o; pend := pend s; tdc := tdc s; rs := rs s; rq := rq s; pb := pb s; ho := ho s |}.
+Definition with_pend (s : sstate) (p : pread) : sstate :=
+  {| cp := cp s; fsm := fsm s; own := own s; pend := p; tdc := tdc s; rs := rs s; rq := rq s; pb := pb s; ho := ho s |}.
 Definition with_tdc (s : sstate) (t : Z) : sstate :=
-  {| cp := cp s; fsm := fsm s; own := own s; tdc := t; rs := rs s; rq := rq s; pb := pb s |}.
+  {| cp := cp s; fsm := fsm s; own := own s; pend := pend s; tdc := t; rs := rs s; rq := rq s; pb := pb s; ho := ho s |}.
 Definition with_rs (s : sstate) (b : bool) : sstate :=
-  {| cp := cp s; fsm := fsm s; own := own s; tdc := tdc s; rs := b; rq := rq s; pb := pb s |}.
+  {| cp := cp s; fsm := fsm s; own := own s; pend := pend s; tdc := tdc s; rs := b; rq := rq s; pb := pb s; ho := ho s |}.
 Definition with_rq (s : sstate) (b : bool) : sstate :=
-  {| cp := cp s; fsm := fsm s; own := own s; tdc := tdc s; rs := rs s; rq := b; pb := pb s |}.
+  {| cp := cp s; fsm := fsm s; own := own s; pend := pend s; tdc := tdc s; rs := rs s; rq := b; pb := pb s; ho := ho s |}.
 Definition with_pb (s : sstate) (b : bool) : sstate :=
-  {| cp := cp s; fsm := fsm s; own := own s; tdc := tdc s; rs := rs s; rq := rq s; pb := b |}.
+  {| cp := cp s; fsm := fsm s; own := own s; pend := pend s; tdc := tdc s; rs := rs s; rq := rq s; pb := b; ho := ho s |}.
+Definition with_ho (s : sstate) (b : bool) : sstate :=
+  {| cp := cp s; fsm := fsm s; own := own s; pend := pend s; tdc := tdc s; rs := rs s; rq := rq s; pb := pb s; ho := b |}.
 
 Definition has_proto (s : sstate) : bool := match own s with ONone => false | _ => true end.
 Definition is_same (s : sstate) : bool := match own s with OSame => true | _ => false end.
-Definition in_main (s : sstate) : bool := match cp s with M0 | MN | MR => true | _ => false end.
+Definition in_main (s : sstate) : bool := match cp s with M0 | MN | MR | MP => true | _ => false end.
+Definition is_lost (s : sstate) : bool := match pend s with PLost => true | _ => false end.
 
 (* Peer._close: down (unless IDLE/ACTIVE), fsm.change(IDLE), proto.close() when there is a proto;
    `closed`: the reader already closed the connection (EOF, socket error), proto.close() finds nothing *)
 Definition close_acts (s : sstate) (closed : bool) : list action :=
   (if connected (fsm s) then [ApiDown] else []) ++ [Fsm (fsm s) Idle]
   ++ (if has_proto s && negb closed then [CloseTransport] else []).
-Definition after_close (s : sstate) : sstate := with_own (with_fsm s Idle) ONone.
+(* ... whatever the read had taken from that transport goes with it *)
+Definition after_close (s : sstate) : sstate := with_pend (with_own (with_fsm s Idle) ONone) PNone.
 
-(* Peer._reset, then what run() does next: another attempt (W) or return (ST) *)
+(* Peer._reset, then what run() does next: another attempt (W) or return (ST); restarting: _teardown := None,
+   neighbor.reset_rib() (which also empties the queue of ROUTE-REFRESH to send), a reloaded neighbor is adopted *)
 Definition reset (s : sstate) (closed : bool) : sstate * list action :=
   let s1 := after_close s in
-  (* restarting: _teardown := None, neighbor.reset_rib() (which also empties the queue of ROUTE-REFRESH to send) *)
-  (if rs s then with_rq (with_tdc (with_cp s1 W) 0) false else with_cp s1 ST, close_acts s closed).
+  (if rs s then with_ho (with_rq (with_tdc (with_cp s1 W) 0) false) false else with_cp s1 ST, close_acts s closed).
 
 (* Peer._run, `except Notify`: written on whatever peer.proto is NOW, then _reset *)
 Definition notify (s : sstate) (c n : Z) : sstate * list action :=
@@ -92,16 +107,16 @@ Definition enter_main (s : sstate) : sstate * list action :=
 Definition send_open (s : sstate) : sstate * list action :=
   (with_cp (with_own (with_fsm s OpenSent) OSame) RO, [Fsm (fsm s) Connect; Write WOpen; Fsm Connect OpenSent]).
 
-(* a message read while the coroutine is in _read_open (exp = 1) / _read_ka (exp = 2) that is neither
-   the awaited one nor an error of its own *)
 Definition wrong_type (s : sstate) : sstate * list action :=
   match cp s with
   | RO => notify_p s read_open_other_notify
   | _ => notify_p s read_keepalive_other_notify
   end.
 
-Definition recv (s : sstate) (k : rkind) : sstate * list action :=
-  if negb (is_same s) then (s, []) else
+(* a complete message was taken from the transport *)
+Definition recv (s0 : sstate) (k : rkind) : sstate * list action :=
+  if negb (is_same s0) || is_lost s0 then (s0, []) else
+  let s := with_pend s0 PNone in
   match cp s with
   | RO | RK =>
     match k with
@@ -134,7 +149,8 @@ Definition recv (s : sstate) (k : rkind) : sstate * list action :=
     | Refresh => (match cp s with MN => with_cp s MR | _ => s end, [])
     | OpenOk | Keepalive | UpdateOk | Operational => (s, [])
     end
-  | _ => (s, [])
+  | MP => (with_pend s0 PDone, [])   (* the read task completes, nobody looks at its result *)
+  | _ => (s0, [])
   end.
 
 (* Peer.handle_connection: refused in ESTABLISHED and (lower remote id) in OPENCONFIRM; otherwise the
@@ -146,16 +162,9 @@ Definition incoming (s : sstate) (rid_ge : bool) : sstate * list action :=
   | _ =>
     if fstate_eqb (fsm s) OpenConfirm && negb rid_ge then (s, [])
     else
-      let c := match cp s with CN | RO | RK => if rs s then W else ST | c => c end in
-      if has_proto s then (with_cp (with_own (with_fsm s Idle) ONew) c, close_acts s false ++ [ApiConnected])
+      let c := match cp s with CN | RO | RK | MP => if rs s then W else ST | c => c end in
+      if has_proto s then (with_cp (with_own (after_close s) ONew) c, close_acts s false ++ [ApiConnected])
       else (with_cp (with_own s ONew) c, [ApiConnected])
-  end.
-
-(* a teardown that the main loop serves: now when nothing is queued, after the queued sends otherwise *)
-Definition teardown_main (s : sstate) (c : Z) : sstate * list action :=
-  match cp s with
-  | MN => if rq s then (with_tdc s c, []) else notify s 6 c
-  | _ => (with_tdc s c, [])
   end.
 
 (* Peer.remove / Peer.shutdown: _stop (close without NOTIFICATION), stop() *)
@@ -166,7 +175,7 @@ Definition remove (s : sstate) : sstate * list action :=
   match cp s with
   | M0 | MN | MR => (with_cp s1 ST, a1 ++ a2 ++ [Fsm Idle Idle])   (* the loop dies on the missing proto: _reset() *)
   | W | ST => (with_cp s1 ST, a1 ++ a2)
-  | _ => (s1, a1 ++ a2)
+  | _ => (s1, a1 ++ a2)                                             (* CN RO RK MP: the coroutine goes on until it notices *)
   end.
 
 Definition session_step (s : sstate) (e : event) : sstate * list action :=
@@ -180,10 +189,10 @@ Definition session_step (s : sstate) (e : event) : sstate * list action :=
       if has_proto s then let r := send_open s1 in (fst r, pre ++ snd r)
       else (with_cp s1 CN, pre)
     | M0 | MN | MR =>
+      (* the send phase of an iteration: queued ROUTE-REFRESH, queued routes, End-of-RIB after the first batch *)
       let w := (if rq s then [Write WRefresh] else [])
                ++ match cp s with M0 => [Write WUpdate; Write WEor] | MR => [Write WUpdate] | _ => [] end in
-      let s1 := with_rq (with_cp s MN) false in
-      if negb (tdc s =? 0) then let r := notify s1 6 (tdc s) in (fst r, w ++ snd r) else (s1, w)
+      (with_rq (with_cp s MN) false, w)
     | _ => (s, [])
     end
   | ConnectOk =>
@@ -202,20 +211,46 @@ Definition session_step (s : sstate) (e : event) : sstate * list action :=
     end
   | Incoming b => incoming s b
   | Recv k => recv s k
+  | RecvPart =>
+    if is_same s && match cp s with RO | RK | M0 | MN | MR | MP => true | _ => false end && negb (is_lost s)
+    then (with_pend s PPartial, []) else (s, [])
   | Eof | SockErr =>
-    if is_same s && match cp s with RO | RK | M0 | MN | MR => true | _ => false end then lost s else (s, [])
+    if is_same s && negb (is_lost s) then
+      match cp s with
+      | RO | RK | M0 | MN | MR => lost s
+      | MP => (with_pend s PLost, [CloseTransport])   (* the reader closes; the loop does not look *)
+      | _ => (s, [])
+      end
+    else (s, [])
   | HoldExpire =>
-    if in_main s && is_same s then notify_p s establish_timer_notify
-    else match cp s with RK => notify_p s read_ka_timeout_notify | _ => (s, []) end
+    match cp s with
+    | M0 | MN | MR => if is_same s then notify_p s establish_timer_notify else (s, [])
+    | RK => notify_p s read_ka_timeout_notify
+    | _ => (s, [])
+    end
   | OpenWaitExpire => match cp s with RO => notify_p s openwait_notify | _ => (s, []) end
-  | Teardown c =>
-    let s1 := with_rs s true in
-    if in_main s && is_same s then teardown_main s1 c else (with_tdc s1 c, [])
-  | Reload Changed =>
-    let s1 := with_rs s true in
-    if in_main s && is_same s then teardown_main s1 3 else (with_tdc s1 3, [])
-  | Reload Same => (s, [])
+  | Teardown c => (with_tdc (with_rs s true) c, [])            (* Peer.teardown: noticed by the loop later *)
+  | Reload Changed => (with_tdc (with_rs s true) 3, [])        (* Peer.reestablish *)
+  | Reload Same =>
+    (* Peer.reconfigure on an established session: the session is kept, the new routes of the accepted file are
+       queued at once, the old ones are withdrawn when the loop adopts the neighbor (Handover);
+       the Neighbor object is replaced in every state: a ROUTE-REFRESH queued on the old one is forgotten) *)
+    let s := with_rq s false in
+    if in_main s && is_same s then (with_ho (match cp s with MN => with_cp s MR | _ => s end) true, []) else (s, [])
   | Reload Removed => remove s
+  | Handover =>
+    if ho s && match cp s with M0 | MN | MR => true | _ => false end
+    then (with_ho (match cp s with MN => with_cp s MR | _ => s end) false, []) else (s, [])
+  | LoopPause =>
+    match cp s with
+    | MN => if negb (tdc s =? 0) && is_same s then (with_cp s MP, []) else (s, [])
+    | _ => (s, [])
+    end
+  | LoopExit =>
+    if in_main s && negb (tdc s =? 0) then
+      if is_lost s then reset s true          (* the NOTIFICATION finds the connection closed: nothing is written *)
+      else notify s 6 (tdc s)
+    else (s, [])
   | ApiRefresh => (with_rq s true, [])
   | ProcessBroken => (with_pb s true, [])
   end.
@@ -236,5 +271,5 @@ Definition rkinds : list rkind :=
   ++ map OpenBad (subcodes 11) ++ map UpdateBad (subcodes 11) ++ map RefreshBad (subcodes 2) ++ map HeaderErr (subcodes 3).
 Definition alphabet : list event :=
   [Tick; ConnectOk; ConnectFail; Incoming true; Incoming false; Eof; SockErr; HoldExpire; OpenWaitExpire;
-   Reload Same; Reload Changed; Reload Removed; ApiRefresh; ProcessBroken]
+   Reload Same; Reload Changed; Reload Removed; ApiRefresh; ProcessBroken; RecvPart; Handover; LoopPause; LoopExit]
   ++ map Recv rkinds ++ map Teardown (map Z.of_nat (seq 1 10)).
